@@ -177,3 +177,34 @@ package fasthttp
 //@     also
 //@     requires[passes-the-block-end-it-found] be == blockLen && blockLen > 0
 //@   end
+
+// C10, client side: a response whose Connection header says close (same spellings as above) leaves connectionClose
+// set, so the client does not put the connection back into its pool.
+//@ func ResponseHeader.parseHeaders results n err
+//@   property C10
+//@   mode skeleton
+//@   stable h.noHTTP11 h.secureErrorLogMessage h.disableNormalizing
+//@   ghost saidClose bool = false
+//@   on call caseInsensitiveCompare(a, b) -> r:
+//@     nohavoc
+//@     effect saidClose = saidClose || (r && sameSlice(b, strConnection) && (closeFirst(s.value, len(s.value)) || closeLast(s.value, len(s.value))))
+//@   on call headerScanner.next -> more:
+//@     havoc heap
+//@   on call header.SetTrailerBytes -> e:
+//@     nohavoc
+//@     modifies h.trailer
+//@   on call ResponseHeader.ConnectionUpgrade -> u:
+//@     nohavoc
+//@   on call ResponseHeader.mustSkipContentLength -> m:
+//@     nohavoc
+//@   on call allocArg -> a, k:
+//@     nohavoc
+//@   on call getCookieKey -> k:
+//@     havoc heap
+//@   end
+//@   ensures[error-closes] err != nil ==> h.connectionClose
+//@   ensures[said-close-closes] err == nil && saidClose ==> h.connectionClose
+//@   loop 1:
+//@     invariant[said-close-recorded] saidClose ==> h.connectionClose
+//@   loop 2:
+//@     invariant[said-close-kept] saidClose ==> h.connectionClose
